@@ -35,6 +35,7 @@ import CtyModel.Lemmas.d19bVisits
 import CtyModel.Lemmas.d19bSetPaths
 import CtyModel.Lemmas.d19bPathSet
 import CtyModel.Lemmas.d19bKeys
+import CtyModel.Lemmas.d19bBracket
 import CtyModel.Props.C03
 namespace CtyModel
 namespace C19
@@ -910,6 +911,30 @@ example :
     exits r.1 = [([.index (Value.intVal 0)], ⟨.list .string, .null⟩), ([], ⟨.tuple [.list .string], .seq [.null]⟩)] := by
   decide
 
+/-- **`Enter` / `Exit` are properly nested — for EVERY transformer, value, schedule and
+fuel.**  Whatever the two methods do (replace members by values of any shape or status,
+fail, panic, depend on the calls made so far), the calls of `TransformWithTransformer`
+form a bracket sequence (`brk` runs them against the stack of open `Enter` paths):
+`Exit(p, ·)` is only ever called for the most recent `Enter(p, ·)` still open, with the
+same path; a run that succeeds leaves nothing open; a run that fails stops with the
+`Enter`s on the way to the failure open (a failing `Enter` stays open, a failing `Exit`
+has closed its `Enter`). -/
+theorem transform_calls_properly_nested (X : SetOracle) (σ : Sched) (t : Transformer) (fuel : Nat)
+    (v : Value) :
+    ∃ open_, brk (transformWith X σ t fuel v).1 [] = some open_ ∧
+      ((transformWith X σ t fuel v).2.isOk = true → open_ = []) := by
+  obtain ⟨evs, h1, hb⟩ := transformFuel_brk X σ t fuel [] [] v
+  obtain ⟨st', h2, h3, _⟩ := hb []
+  simp only [List.nil_append] at h1
+  exact ⟨st', by simp only [transformWith, h1, h2], fun h => h3 h⟩
+
+/-- an `Exit` that fails inside a list: the element's bracket is closed, the list's and
+nothing else is open -/
+example :
+    let t : Transformer := ⟨idCb, fun _ p w => if p = [.index (Value.intVal 1)] then .err "no" else .ok w⟩
+    brk (transformWith X0 Sched.sorted t 5 sampleList).1 [] = some [[]] ∧
+      (transformWith X0 Sched.sorted t 5 sampleList).2 = .err "no" := by decide
+
 /-- **`Enter` / `Exit` bracket every successful identity traversal**: with any transformer
 that is the identity on the paths of `v` (`IdOnT`), each position is entered once and
 exited once — the `Enter` calls and the `Exit` calls are both permutations of `Walk`'s
@@ -1174,6 +1199,29 @@ example :
       [.index ⟨.tuple [.number], .seq [.n (.fin false 1 0 512)]⟩] = .ok true ∧
     PathSet.equiv [.index ⟨.list .string, .marked ["m"] (.seq [.marked ["k"] (.s "a")])⟩]
       [.index ⟨.list .string, .seq [.s "a"]⟩] = .ok true := by decide
+
+open SetImpl SetGo SetFnsTie Generated.SetFns in
+/-- **The set algebra of `PathSet`, tied to the source through BOTH layers** (audit,
+missing theorem (c)): `PathSet.Union` / `Intersection` / `Subtract` /
+`SymmetricDifference` as translated from cty/path_set.go forward to the `SetImpl`
+operation that `psRun` runs and the refinement theorems are about, and that operation
+is what `set.Set.Union` … as translated from cty/set/ops.go compute on the same bucket
+maps — for every Go map iteration order `ord`, any rules that are `SameRules` with
+themselves, operands with ascending buckets (in particular: satisfying the invariant). -/
+theorem pathset_algebra_source_tie (same : Rules Path → Rules Path → Bool) (ord : GoMap Path → GoMap Path)
+    (ho : MapOrder ord) (R : Rules Path) (s o : SetImpl Path) (hs : Asc s.buckets) (hb : Asc o.buckets)
+    (hsame : same R R = true) :
+    (Generated.PathFns.PathSet_Union R s o = .ok (union R s o) ∧
+      Set_Union same ord s.buckets R o.buckets R = .ok ⟨(union R s o).buckets, R⟩) ∧
+    (Generated.PathFns.PathSet_Intersection R s o = .ok (intersection R s o) ∧
+      Set_Intersection same ord s.buckets R o.buckets R = .ok ⟨(intersection R s o).buckets, R⟩) ∧
+    (Generated.PathFns.PathSet_Subtract R s o = .ok (subtract R s o) ∧
+      Set_Subtract same ord s.buckets R o.buckets R = .ok ⟨(subtract R s o).buckets, R⟩) ∧
+    (Generated.PathFns.PathSet_SymmetricDifference R s o = .ok (symmetricDifference R s o) ∧
+      Set_SymmetricDifference same ord s.buckets R o.buckets R = .ok ⟨(symmetricDifference R s o).buckets, R⟩) :=
+  ⟨⟨rfl, Set_Union_eq same ord ho R s o hs hb hsame⟩, ⟨rfl, Set_Intersection_eq same ord ho R s o hs hsame⟩,
+   ⟨rfl, Set_Subtract_eq same ord ho R s o hs hsame⟩,
+   ⟨rfl, Set_SymmetricDifference_eq same ord ho R s o hs hb hsame⟩⟩
 
 end C19
 end CtyModel
